@@ -42,7 +42,7 @@ def check_schema_generators(name: str, ops: List[int], orders: List[bool], const
             ("infer_constraints_by_class", lambda: infer_for_schema.infer_constraints_by_class(symbol_table=st)),
             ("jsonschema.generate", lambda: jsonschema_main.generate(symbol_table=st, spec_impls=_JSON_SNIPPETS,
                                                                     fix_pattern=jsonschema_main.fix_pattern_for_utf16)),
-            ("xsd._generate", lambda: xsd_main._generate(symbol_table=st, spec_impls=_XSD_SNIPPETS))):
+            ("xsd._generate", lambda: _xsd_on_realized(st, slots, originals, consts))):
         try:
             result, errors = call()
         except Exception as e:  # noqa
@@ -52,6 +52,16 @@ def check_schema_generators(name: str, ops: List[int], orders: List[bool], const
             fail("generator:neither-result-nor-errors:" + label)
         outcome.append("ok" if errors is None else "errors")
     return "/".join(outcome)
+
+
+def _xsd_on_realized(st: Any, slots: Any, originals: Any, consts: List[Any]) -> Any:
+    """xsd._generate serializes and re-parses XML (C accelerators, expat): the constants are realized first -- the solver
+    enumerates them -- and the generator runs concretely."""
+    from vf.common import realize, untraced
+    concrete = [realize(c) for c in consts]
+    for i in slots:
+        originals[i][1].value = concrete[i]
+    return untraced(lambda: xsd_main._generate(symbol_table=st, spec_impls=_XSD_SNIPPETS))
 
 
 def make_harness(params: Dict[str, Any]):
